@@ -3,6 +3,8 @@ NEXT Next
 CONSTANTS
   FlatLen = 4
   Mode = "anon"
+  EnumCap32 = FALSE
+  UnionFieldCallback = TRUE
   Small = FALSE
 INVARIANT ImplSatisfiesPropertyAll
 CHECK_DEADLOCK FALSE
